@@ -86,6 +86,11 @@ fn region(fields: &[wire::Field], w: &WXenc, byte: usize) -> &'static str {
 }
 
 fn judge(cc: &Covercrypt, fxx: &Fx, base: &Base, mutant: &[u8], op: &str, st: &mut Stats) {
+    if mutant == base.bytes.as_slice() {
+        // e.g. two equal bytes swapped: nothing was modified
+        st.bump("mutants_identical_to_the_base");
+        return;
+    }
     st.bump("mutants");
     let x = match de::<XEnc>(mutant) {
         Out::Ok(x) => x,
